@@ -431,6 +431,10 @@ func (e *Enc) heapGet(st *State, key string) Term {
 	if t, ok := e.heap0[key]; ok {
 		return t
 	}
+	if strings.HasPrefix(key, "ent|") {
+		e.heap0[key] = False // no loop head has been reached at entry
+		return False
+	}
 	srt := e.keySort(key)
 	e.needSort(srt)
 	c := e.declare("H0_"+sanitize(key), srt)
